@@ -1,6 +1,6 @@
 """C18 - CLI batches: per-file isolation, bad files skipped, outputs never re-consumed.
 
-Design level: CliBatch.tla (every tree of <= 3 files over 10 kinds, every traversal order, two runs; regression configs with a
+Design level: CliBatch.tla (every tree of <= 3 files over 12 kinds, every traversal order, two runs; regression configs with a
 shared custom-property table / kept *_cm.css inputs are rejected by TLC).  Spec -> code: TLC enumerates the abstract trees;
 each is materialised in a scratch directory (names and sub-directories permuted to vary traversal order), the real command
 is run twice on the directory and once per valid file alone; TrBatch.tla judges the recorded runs.
@@ -11,7 +11,7 @@ import vlib, clilib
 
 PID = "C18"
 VALID = {"defines", "usesOwn", "usesOther", "plain", "empty"}
-FAULTS = {"undecodable", "dirnamed", "dangling", "unserialisable", "faultDefines"}
+FAULTS = {"undecodable", "dirnamed", "dangling", "unserialisable", "faultDefines", "unencodable", "outdir"}
 
 
 def content(kind, rnd):
@@ -41,6 +41,11 @@ def content(kind, rnd):
         # custom properties are collected, then serialisation of the modified rule fails (late fault)
         return (b":root{--bg:#000000; --c:#777777; --t:#767676} .z{*zoom:1; color:#777777; background-color:#ffffff} "
                 b".z2{*zoom:1; color:#5c5c5c; background-color:#ffffff}\n")
+    if kind == "unencodable":
+        # valid UTF-8, parses and serialises; the escape denotes a lone surrogate, which the output encoding refuses
+        return b'.s{color:#777777;background-color:#ffffff;content:"\\d800"} .s2{color:#5c5c5c;background-color:#ffffff}\n'
+    if kind == "outdir":
+        return b".q{color:#777777;background-color:#ffffff} .q2{color:#5c5c5c;background-color:#ffffff}\n"
     if kind == "cm":
         return b".old{color:#777777} .o2{color:#999999;background-color:#ffffff}\n"
     raise ValueError(kind)
@@ -70,6 +75,8 @@ def materialise(tree, root, rnd):
         else:
             with open(full, "wb") as f:
                 f.write(content(kind, rnd))
+            if kind == "outdir":        # the name the output would get is taken by a directory
+                os.makedirs(os.path.join(root, out_rel(rel)))
         paths[s] = rel
     return paths
 
@@ -131,7 +138,8 @@ def one_tree(job):
                 if kind != "cm":
                     allowed.add(out_rel(rel))
                 full = os.path.join(root, rel)
-                reported = ("Error processing" in res["stderr"] and (full in res["stderr"] or rel in res["stderr"]))
+                # "Error processing <path>: ..." with exactly this file's path (not a substring of another file's path or message)
+                reported = any(("Error processing " + pth + ":") in res["stderr"] for pth in (full, rel, os.path.join(".", rel)))
                 files.append({"slot": s, "kind": kind, "reported": bool(reported), "out": hid(out_bytes) if kind != "cm" else 0,
                               "single": hid(single.get(s)) if kind in VALID else 0,
                               "inputSame": after.get(rel) == before0.get(rel),
